@@ -164,6 +164,10 @@ func (h *Header) Unmarshal(b []byte) error {
 
 	}
 
+	if h.TotalLen < HeaderLen {
+		return errHeaderTooShort
+	}
+
 	h.Payload = b[20:h.TotalLen]
 
 	return nil
